@@ -8,7 +8,7 @@
    (Round 2: C19-F17a/b/c/d repaired — the former _refuted/_partial statements are proved in full.) *)
 From Coq Require Import List Bool Arith ZArith String Lia.
 From PyxelV Require Import Model.Outputs Model.OutputsHist Proofs.OutputsDir Proofs.OutputsFiles Proofs.OutputsSeq
-  Proofs.OutputsHist.
+  Proofs.OutputsHist Proofs.OutputsAuto.
 From PyxelGen Require Import Gen_C19.
 Import ListNotations.
 Open Scope string_scope.
@@ -287,3 +287,24 @@ Example C19_ex_history_lazy :
     [(1, "new/run_T", "new/run_T", 2); (0, "out/run_T", "out/run_T", 1)] /\
   wget "out/run_T" wf = Some [("detector_image_0.npy", 20%Z)].
 Proof. vm_compute. repeat split; reflexivity. Qed.
+
+(* ---------------------------------------------------------------- automatic numbering
+   apply_run_number(run_number=None): the glob finds the matching names, the new file gets the largest
+   trailing number + the step of the source (regenerated: src_auto).  For EVERY set of matching names:
+   the new name is not one of them — so the writer's own existence test never fires and nothing that
+   exists is replaced — and no existing name carries a number above it. *)
+Theorem C19_auto_number_fresh : forall mids,
+  ~ In (auto_mid src_auto mids) mids /\
+  (forall m, In m mids -> get_number m < next_number src_auto mids).
+Proof.
+  intro mids. split.
+  - apply auto_fresh. vm_compute. lia.
+  - intros m Hin. destruct (auto_above_all src_auto mids m Hin) as [H|H]; [|exact H|vm_compute in H; discriminate H].
+    intros ->. contradiction.
+Qed.
+Print Assumptions C19_auto_number_fresh.
+
+Example C19_ex_auto :
+  auto_mid src_auto ["9"; "10"; "x"; "007"] = "11" /\ auto_mid src_auto [] = "1" /\ get_number "run12" = 12 /\
+  get_number "" = 0.
+Proof. vm_compute. auto. Qed.
